@@ -1190,6 +1190,8 @@ def run_campaign(ctx) -> None:
         for run in res["runs"]:
             if run.get("doc"):
                 ctx.count(1, ("doc", len(recs), run["what"], repr(run["doc"]["op"])))
+            elif run.get("os_level"):
+                ctx.count(1, ("os", len(recs), run["what"], repr(run["plan"])))
         m = res["model"]
         stage1.append(gcsim.gc_expr(m["tp"], m["grace"], m["now_ms"], TIMEOUT_MS, [], m["snaps"], f"base{len(recs)}"))
         recs.append((spec, res))
@@ -1296,7 +1298,7 @@ def run(ctx) -> None:
     import logging
     logging.disable(logging.CRITICAL)
     ctx.rule = ("one evaluation = one real collection with one fault plan (a fault at one storage call: 4 kinds, or the stream failing "
-                "part-way; thorough: pairs) or one damaged reachable file (6 whole-file classes; single-byte flips and truncations at "
+                "part-way; an OS-level refusal of the object of one operation; thorough: pairs) or one damaged reachable file (6 whole-file classes; single-byte flips and truncations at "
                 "many offsets; one structured operation -- drop / null / retype / empty / drop-item -- at one key path of the document), judged by "
                 "the independent oracle and compared with the model; distinct by (table, fault kind, call, file role, offset / "
                 "operation and key path)")
